@@ -21,13 +21,13 @@ type C12Case struct {
 }
 
 var specC12 = report.Spec{Property: "C12", Check: "C12",
-	Rule: "source GeoPackages written by the harness (go-spatial gpkg + SQL): 1-3 feature tables, integer primary key plus 0-4 attribute columns (INTEGER, REAL, TEXT, nullable or NOT NULL), geometry column at a random position, geometry type from the seven supported names plus GEOMETRY, SRS in {4326, 3857, a custom 28992 definition}; " +
+	Rule: "source GeoPackages written by the harness (go-spatial gpkg + SQL): 1-3 feature tables, integer primary key plus 0-4 attribute columns (INTEGER, REAL, TEXT, nullable or NOT NULL), geometry column at a random position, geometry type from all eight names (GEOMETRY, POINT, LINESTRING, POLYGON, MULTIPOINT, MULTILINESTRING, MULTIPOLYGON, GEOMETRYCOLLECTION), SRS in {4326, 3857, a custom 28992 definition}; " +
 		"page size p in 1..40 and feature count n with the classes n = 0, k*p, k*p+1, k*p-1 forced (n <= 3p+1), empty geometries included (first in a page, alone in the last page). Subject: SourceGeopackage.GetTableInfo -> TargetGeopackage.Init/CreateTables/WriteFeatures fed from a channel by the harness, table after table like main.go; and a second route in which the same features are stored in the source and copied by SourceGeopackage.ReadFeatures -> WriteFeatures. " +
 		"Oracle (read back with database/sql): rows in rowid order equal the fed features (key, attributes by value, geometry by decoded deep equality); the R-tree table holds exactly the keys of the rows with a non-empty geometry; gpkg_contents min/max = bounding box of all non-empty fed geometries (NULL when none), exact; " +
 		"gpkg_geometry_columns row, PRAGMA table_info and the spatial reference system row equal the source's. Non-trivial: some table has n > p and n mod p in {0, 1, p-1}. Distinct by case content.",
 	Assumptions: []string{"the verif-tagged stub driver's ST_IsEmpty/ST_MinX.. stand in for SpatiaLite's (same semantics on the generated geometries)", "geometry blobs are non-NULL, page size >= 1, columns have no default values (the reader's documented input domain)"}}
 
-var allGTypes = []string{"POINT", "LINESTRING", "POLYGON", "MULTIPOINT", "MULTILINESTRING", "MULTIPOLYGON", "GEOMETRY"}
+var allGTypes = []string{"POINT", "LINESTRING", "POLYGON", "MULTIPOINT", "MULTILINESTRING", "MULTIPOLYGON", "GEOMETRY", "GEOMETRYCOLLECTION"}
 
 func drawCount(t *rapid.T, p int) int {
 	k := rapid.IntRange(0, 3).Draw(t, "k")
@@ -213,6 +213,10 @@ func oracleC12(c C12Case) (o report.Outcome) {
 		if why := compareTable(rt, t, want, &st); why != "" {
 			o.Failf([]string{"table"}, "page size %d, %d features: %s", c.PageSize, len(t.Rows), why)
 			return o
+		}
+		// on the copy route every geometry passes the codec twice (source file -> tool -> target file -> read back)
+		for i := range want {
+			want[i].Geom = codecRoundTrip(want[i].Geom)
 		}
 		ct, err := readBack(cdb, t)
 		if err != nil {
